@@ -269,6 +269,28 @@ class Monitor:
                 sv = cvec(t.storage, names)
                 if not self.nonneg(sv, scale):
                     self.bad("C06", f"{date.date()} store {n.name}.{k} negative: {fmt(sv)}")
+        # recorded known finding late-bounce-mixed-remainder, by mechanism: a travel-time arc that started the timestep with
+        # water admitted earlier and leads into a RiverReservoir (the one class that hands back what it cannot pass on as
+        # MIXED water) books a negative pollutant mass as delivered (volume and flows non-negative); the remainder travels on
+        # to today's sender through the junction(s) the arc leaves from, whose in-arcs then record negative pollutant mass too
+        TT = ("QueueArc", "AltQueueArc", "DecayArc", "DecayArcAlt")
+        lb_mixed, lb_nodes = set(), set()
+        for a in model.arcs.values():
+            if type(a).__name__ in TT and self.pre_arcs[a.name][0] > 0 and type(a.out_port).__qualname__ == "RiverReservoir":
+                vo_ = cvec(a.vqip_out, names)
+                vi_ = cvec(a.vqip_in, names)
+                sc_ = max(abs(float(x)) for x in vi_ + vo_ + (1.0,)) if self.mode != "exact" else 1
+                if not self.nonneg(vo_, sc_) and self.nonneg((vo_[0], a.flow_in, a.flow_out), sc_):
+                    lb_mixed.add(a.name)
+                    if type(a.in_port).__name__ == "Node":
+                        lb_nodes.add(a.in_port.name)
+        grown = True
+        while grown and lb_nodes:
+            grown = False
+            for a in model.arcs.values():
+                if a.out_port.name in lb_nodes and type(a.in_port).__name__ == "Node" and a.in_port.name not in lb_nodes:
+                    lb_nodes.add(a.in_port.name)
+                    grown = True
         for a in model.arcs.values():
             tr = arc_transit(a, names)
             tot_post = vadd(tot_post, tr)
@@ -293,6 +315,10 @@ class Monitor:
                 if (type(a).__name__ in ("QueueArc", "AltQueueArc", "DecayArc", "DecayArcAlt") and not self.nonneg(vi, sc)
                         and self.nonneg(vo, sc) and self.nonneg((a.flow_in, a.flow_out), sc) and self.pre_arcs[a.name][0] > 0):
                     known = "late-bounce"
+                elif a.name in lb_mixed and self.nonneg((vi[0], vo[0], a.flow_in, a.flow_out), sc):
+                    known = "late-bounce-mixed-remainder"
+                elif a.out_port.name in lb_nodes and self.nonneg((vi[0], vo[0], a.flow_in, a.flow_out), sc):
+                    known = "late-bounce-mixed-remainder"
                 self.bad("C06", f"{date.date()} arc {a.name} ({type(a).__name__}) record negative: in {fmt(vi)} out {fmt(vo)} flow_in {a.flow_in}", known)
             if type(a).__name__ in ("Arc", "PullArc", "PushArc") and vi != vo:
                 self.bad("C02", f"{date.date()} arc {a.name}: in-record {fmt(vi)} != out-record {fmt(vo)}")
